@@ -88,6 +88,7 @@ Viol ==
   (IF C07_OutputWellFormed' THEN {} ELSE {"C07_OutputWellFormed"}) \cup
   (IF C12_DryRunNeverWrites' THEN {} ELSE {"C12_DryRunNeverWrites"}) \cup
   (IF C12_DescriptionsOnStderrOnly' THEN {} ELSE {"C12_DescriptionsOnStderrOnly"}) \cup
+  (IF C12_StdoutIsOutputOnly' THEN {} ELSE {"C12_StdoutIsOutputOnly"}) \cup
   (IF C16_Atomic' THEN {} ELSE {"C16_Atomic"}) \cup
   (IF C16_Reported' THEN {} ELSE {"C16_Reported"}) \cup
   (IF C16_ExitZeroMeansAllDone' THEN {} ELSE {"C16_ExitZeroMeansAllDone"}) \cup
